@@ -48,6 +48,20 @@ verus! {
 struct AsmSource { orig: u16 }
 impl AsmSource {
     fn orig(&self) -> (r: u16) ensures r == self.orig { self.orig }
+    /// AsmSource::from (U-ASM) keeps the origin; the statement list and text are not part of this unit
+    fn from(orig: u16, ast: AstStandIn, src: &'static str) -> (r: AsmSource) ensures r.orig == orig { AsmSource { orig } }
+}
+/// R10: `Vec<AsmLine>` is only passed through
+#[verifier::external_body]
+struct AstStandIn { _opaque: u8 }
+//@item src/debugger/mod.rs struct Options derive=
+impl CommandReader {
+    #[verifier::external_body]
+    fn from(argument: Option<String>) -> CommandReader { unimplemented!() }
+}
+impl Default for Status {
+    /// `#[derive(Default)]` with `#[default] WaitForAction` (attribute checked by the anchor below)
+    fn default() -> (r: Status) ensures r is WaitForAction { Status::WaitForAction }
 }
 #[verifier::external_body]
 struct CommandReader { _opaque: u8 }
@@ -138,6 +152,16 @@ impl Debugger {
     /// prints source context (reads only): R4 / external
     #[verifier::external_body]
     fn show_assembly_source(&self, state: &RunState, address: u16) { }
+
+//@fn src/debugger/mod.rs "impl Debugger" new ret=r props=C12,C11,C10
+//@sigsub <<<breakpoints: impl Into<Breakpoints>,>>> ==> <<<breakpoints: Breakpoints,>>>
+//@sigsub <<<ast: Vec<AsmLine>,>>> ==> <<<ast: AstStandIn,>>>
+//@sub <<<breakpoints: breakpoints.into(),>>> ==> <<<breakpoints: breakpoints, // `Into<Breakpoints> for Breakpoints` is the identity>>>
+        ensures
+            // C12: the saved initial machine is exactly the one handed in; the debugger starts paused, armed, with that table
+            r.initial_state == initial_state, r.asm_source.orig == initial_state.pc,
+            r.breakpoints == breakpoints, r.status is WaitForAction, r.current_breakpoint is None, r.instruction_count == 0,
+//@end
 
 //@fn src/debugger/mod.rs "impl Debugger" orig ret=r props=C13
         requires self.asm_source.orig == self.initial_state.pc,
